@@ -219,11 +219,59 @@ func init() {
 
 type hostDecoder struct{ d *json.Decoder }
 
-// absDecoder is the contract-level model of json.Decoder over a vh.DocStream.
-type absDecoder struct {
-	ds      *value // the DocStream struct cell
-	stuck   value  // sticky error (iface) once a Decode failed
-	fetched int    // number of items the reader was asked for so far
+// rdDecoder is the contract-level model of json.Decoder over an arbitrary io.Reader
+// whose data are item markers produced by vh.DocStream's Read intrinsic. The reader
+// (and any wrapper around the DocStream) is driven through its own, interpreted, Read
+// method; the model follows go1.23 encoding/json/stream.go: data delivered in a Read call
+// are consumed before the error of that call is looked at; More is false on ] } and
+// when the reader has failed; Decode returns io.EOF at a clean end, a sticky syntax
+// error, io.ErrUnexpectedEOF, or the reader's error.
+type rdDecoder struct {
+	r     iface
+	queue []value // item markers not yet consumed
+	rerr  value   // the reader's error (iface), once it has reported one
+	stuck value   // sticky decoder error
+}
+
+// jsonItem is the opaque "byte" standing for one DocStream item in a read buffer.
+type jsonItem struct{ item value }
+
+func (d *rdDecoder) fill(fr *frame) {
+	buf := make([]value, 64)
+	for i := range buf {
+		buf[i] = byte(0)
+	}
+	res := callMethod(fr, d.r, "Read", buf).(tuple)
+	n := int(fr.concreteInt(res[0], "Read count"))
+	if n < 0 || n > len(buf) {
+		panic("runtime error: slice bounds out of range (reader returned a bad count)")
+	}
+	for i := 0; i < n; i++ {
+		switch b := buf[i].(type) {
+		case jsonItem:
+			d.queue = append(d.queue, b.item)
+		case byte:
+			if b != ' ' && b != '\n' && b != '\t' && b != '\r' && b != 0 {
+				unsup("json decoder model: raw byte %q from the reader", b)
+			}
+		default:
+			unsup("json decoder model: unexpected buffer element %T", b)
+		}
+	}
+	if e, ok := res[1].(iface); ok && e.t != nil {
+		d.rerr = e
+	}
+}
+
+func sameIface(a, b value) bool {
+	x, ok1 := a.(iface)
+	y, ok2 := b.(iface)
+	if !ok1 || !ok2 || x.t == nil || y.t == nil {
+		return false
+	}
+	px, okx := x.v.(*value)
+	py, oky := y.v.(*value)
+	return okx && oky && px == py
 }
 
 var emptyIface = types.NewInterfaceType(nil, nil).Complete()
@@ -302,42 +350,71 @@ const (
 	fReadErr    = 4
 )
 
-// DocStream field indices (vh.DocStream{Items, OnRead, pos}).
+
+// DocStream field indices (vh.DocStream{Items, OnRead, Mode, pos}).
 const (
 	dsItems  = 0
 	dsOnRead = 1
-	dsPos    = 2
+	dsMode   = 2
+	dsPos    = 3
 )
 
-func (a *absDecoder) items() []value {
-	it, _ := (*a.ds).(structure)[dsItems].([]value)
-	return it
-}
-func (a *absDecoder) pos() int { return (*a.ds).(structure)[dsPos].(int) }
-func (a *absDecoder) setPos(p int) {
-	(*a.ds).(structure)[dsPos] = p
+func vhGlobal(fr *frame, name string) value {
+	g := fr.i.prog.ImportedPackage(VHPath).Var(name)
+	if c, ok := fr.i.globals[g]; ok {
+		return *c
+	}
+	return *fr.i.base.globals[g]
 }
 
-// fetch models the decoder asking its reader for more bytes: the item at the current
-// position (or end of input) is requested once.
-func (a *absDecoder) fetch(fr *frame) {
-	p := a.pos()
-	if a.fetched > p {
-		return
-	}
-	a.fetched = p + 1
-	if f := (*a.ds).(structure)[dsOnRead]; f != nil {
-		switch fn := f.(type) {
-		case *closure:
-			if fn != nil {
-				call(fr.i, fr, 0, fn, []value{p})
-			}
-		case *ssa.Function:
-			if fn != nil {
-				call(fr.i, fr, 0, fn, []value{p})
-			}
+// docStreamRead is the symbolic twin of (*vh.DocStream).Read: same packing of items and
+// errors into calls, items handed over as markers.
+func docStreamRead(fr *frame, args []value) value {
+	st := (*args[0].(*value)).(structure)
+	p := args[1].([]value)
+	items, _ := st[dsItems].([]value)
+	pos := int(asInt64(st[dsPos]))
+	mode := int(fr.concreteInt(st[dsMode], "DocStream.Mode"))
+	switch fn := st[dsOnRead].(type) {
+	case *closure:
+		if fn != nil {
+			call(fr.i, fr, 0, fn, []value{pos})
+		}
+	case *ssa.Function:
+		if fn != nil {
+			call(fr.i, fr, 0, fn, []value{pos})
 		}
 	}
+	isReadErr := func(i int) bool { return i < len(items) && faultKind(items[i]) == fReadErr }
+	if pos >= len(items) {
+		return tuple{0, ioEOF(fr)}
+	}
+	if isReadErr(pos) {
+		st[dsPos] = pos + 1
+		return tuple{0, vhGlobal(fr, "ErrInjected")}
+	}
+	take := 1
+	if mode == 2 && pos+1 < len(items) && !isReadErr(pos+1) {
+		take = 2
+	}
+	if len(p) < take {
+		panic("vh.DocStream: items larger than the read buffer")
+	}
+	n := 0
+	for k := 0; k < take; k++ {
+		p[n] = jsonItem{items[pos]}
+		n++
+		pos++
+	}
+	st[dsPos] = pos
+	if mode == 1 && pos >= len(items) {
+		return tuple{n, ioEOF(fr)}
+	}
+	if mode == 3 && isReadErr(pos) {
+		st[dsPos] = pos + 1
+		return tuple{n, vhGlobal(fr, "ErrInjected")}
+	}
+	return tuple{n, iface{}}
 }
 
 // faultKind returns 0 for a JSON value, or the fault kind of the item.
@@ -369,14 +446,11 @@ func ioErrUnexpectedEOF(fr *frame) value {
 }
 
 func initJSON() {
+	reg("(*"+VHPath+".DocStream).Read", docStreamRead)
 	reg("encoding/json.NewDecoder", func(fr *frame, args []value) value {
 		r := args[0].(iface)
 		if r.t == nil {
 			panic("runtime error: nil io.Reader")
-		}
-		if p, ok := r.t.(*types.Pointer); ok && strings.HasSuffix(p.Elem().String(), "vh.DocStream") {
-			var box value = &absDecoder{ds: r.v.(*value)}
-			return &box
 		}
 		if p, ok := r.t.(*types.Pointer); ok && p.Elem().String() == "strings.Reader" {
 			st := (*r.v.(*value)).(structure) // strings.Reader{s, i, prevRune}
@@ -388,23 +462,24 @@ func initJSON() {
 			var box value = hostDecoder{json.NewDecoder(strings.NewReader(s[off:]))}
 			return &box
 		}
-		unsup("json.NewDecoder over %s", r.t)
-		return nil
+		// any other reader: the model pulls item markers through its Read method
+		var box value = &rdDecoder{r: r}
+		return &box
 	})
 	reg("(*encoding/json.Decoder).More", func(fr *frame, args []value) value {
 		switch d := (*args[0].(*value)).(type) {
-		case *absDecoder:
+		case *rdDecoder:
 			if d.stuck != nil {
 				return false // err != nil
 			}
-			d.fetch(fr)
-			items := d.items()
-			p := d.pos()
-			if p >= len(items) {
-				return false
+			for len(d.queue) == 0 {
+				if d.rerr != nil {
+					return false
+				}
+				d.fill(fr)
 			}
-			switch faultKind(items[p]) {
-			case fStrayClose, fReadErr:
+			switch faultKind(d.queue[0]) {
+			case fStrayClose:
 				return false
 			}
 			return true
@@ -415,31 +490,45 @@ func initJSON() {
 	})
 	reg("(*encoding/json.Decoder).Decode", func(fr *frame, args []value) value {
 		switch d := (*args[0].(*value)).(type) {
-		case *absDecoder:
+		case *rdDecoder:
 			if d.stuck != nil {
 				return d.stuck
 			}
-			d.fetch(fr)
-			items := d.items()
-			p := d.pos()
-			if p >= len(items) {
-				return ioEOF(fr)
+			for len(d.queue) == 0 {
+				if d.rerr != nil {
+					if sameIface(d.rerr, ioEOF(fr)) {
+						return ioEOF(fr)
+					}
+					d.stuck = d.rerr
+					return d.stuck
+				}
+				d.fill(fr)
 			}
-			item := items[p]
+			item := d.queue[0]
 			switch faultKind(item) {
 			case 0:
+				d.queue = d.queue[1:]
 				target := args[1].(iface).v.(*value)
 				*target = item
-				d.setPos(p + 1)
 				return iface{}
 			case fGarbage, fStrayClose:
 				d.stuck = mkError(fr, "invalid character looking for beginning of value")
 			case fTruncated:
-				d.setPos(p + 1)
-				d.fetch(fr) // the decoder reads on, hits end of input
-				d.stuck = ioErrUnexpectedEOF(fr)
-			case fReadErr:
-				d.stuck = mkError(fr, "injected read error")
+				d.queue = d.queue[1:]
+				// the decoder needs more data: it reads on until the reader gives up
+				for d.rerr == nil {
+					d.fill(fr)
+					if len(d.queue) > 0 {
+						unsup("json decoder model: data after a truncated value")
+					}
+				}
+				if sameIface(d.rerr, ioEOF(fr)) {
+					d.stuck = ioErrUnexpectedEOF(fr)
+				} else {
+					d.stuck = d.rerr
+				}
+			default:
+				unsup("json decoder model: unexpected item kind")
 			}
 			return d.stuck
 		case hostDecoder:
